@@ -13,6 +13,7 @@ CONSTANTS
   MaxReadFaults = 100000
   AllowSoleRecordLoss = TRUE
   AllowIntraSetCollision = TRUE
+  AllowContinueAfterVolatile = TRUE
   RelevantSignersOnly = FALSE
 SPECIFICATION TraceSpec
 INVARIANTS TypeOK TrustOnlyByRFC RevokedNeverAgain RevokedNeverAtFetch
